@@ -85,11 +85,12 @@ func runC06(w *mc.Worker) {
 	}
 	var stages []bound
 	if w.Tier == "quick" {
-		stages = []bound{{"L2-D8", 2, 8, 2, true}, {"L3-D6", 3, 6, 1, true}}
+		stages = []bound{{"L2-D8", 2, 8, 2, true}, {"L3-D6", 3, 6, 1, true}, {"L4-D3", 4, 3, 0, true}}
 	} else {
 		stages = []bound{{"L2-D16", 2, 16, 2, true}, {"L3-D10", 3, 10, 2, true}, {"L4-D5", 4, 5, 1, true}}
 	}
 	totals := c06Totals(w.Tier)
+	c06Spellings(w, append(c06Totals("quick")[:0:0], append(c06Totals("quick"), big.NewInt(10000), big.NewInt(99999))...))
 	for _, b := range stages {
 		b := b
 		w.Stage(b.name, fmt.Sprintf("vectors of length %d, denominators <= %d, <= %d non-ratio spellings, totals %d values", b.L, b.D, b.fb, len(totals)), func() {
@@ -276,6 +277,77 @@ func runC06(w *mc.Worker) {
 			})
 		})
 	}
+}
+
+// c06Spellings: portions written with unusual but grammatical spellings (leading zeros,
+// trailing fractional zeros, spaces), split against `remaining`, both sides.
+func c06Spellings(w *mc.Worker, totals []*big.Int) {
+	texts := []string{"0.25%", "0.10%", "01.5%", "0.017%", "50.0%", "2.50%", "025%", "007%", "1/04", "010/020", "1 / 8", "00.5%", "100.00%", "0.0%", "09%", "1/010"}
+	w.Stage("spellings", fmt.Sprintf("%d unusual portion spellings (leading zeros, trailing fractional zeros, spaces) x {literal, variable} x {source, destination} x totals", len(texts)), func() {
+		w.Outer("spellings/text", 0, func(o *mc.Explorer) {
+			txt := texts[o.Choose(len(texts))]
+			side := o.Choose(2)
+			asVar := o.Choose(2) == 1
+			prog := &gen.Program{Vars: []*gen.VarDecl{{Type: &gen.TypeName{Name: "monetary"}, Name: gen.V("m")}}}
+			vars := map[string]string{}
+			var a gen.Allot = gen.Port(txt)
+			if asVar {
+				prog.Vars = append(prog.Vars, &gen.VarDecl{Type: &gen.TypeName{Name: "portion"}, Name: gen.V("p")})
+				vars["p"] = txt
+				a = gen.V("p")
+			}
+			if side == 0 {
+				prog.Stmts = []gen.Stmt{&gen.Send{Sent: &gen.SentLit{E: gen.V("m")}, Src: &gen.SrcAccount{E: gen.Acct("world")}, Dst: &gen.DstAllot{Items: []*gen.DstAllotItem{
+					{A: a, To: &gen.To{D: &gen.DstAccount{E: gen.Acct("d0")}}}, {A: &gen.Remaining{}, To: &gen.To{D: &gen.DstAccount{E: gen.Acct("d1")}}}}}}}
+			} else {
+				prog.Stmts = []gen.Stmt{&gen.Send{Sent: &gen.SentLit{E: gen.V("m")}, Src: &gen.SrcAllot{Items: []*gen.SrcAllotItem{
+					{A: a, From: &gen.SrcOverdraft{Addr: gen.Acct("s0")}}, {A: &gen.Remaining{}, From: &gen.SrcOverdraft{Addr: gen.Acct("s1")}}}}, Dst: &gen.DstAccount{E: gen.Acct("x")}}}
+			}
+			text := gen.Text(prog)
+			if !w.Mine(text) {
+				return
+			}
+			w.Owned()
+			pr, ok := mustParse(w, text)
+			if !ok {
+				return
+			}
+			p := ref.PortionOfText(txt)
+			w.Inner(0, func(in *mc.Explorer) {
+				total := totals[in.Choose(len(totals))]
+				vars["m"] = "COIN " + total.String()
+				out := RunReal(pr, vars, env.New(env.Exact, nil, nil), nil)
+				want, _ := ref.Allot(total, []*big.Rat{p, nil})
+				key := text + "|" + total.String()
+				c := Case{Script: text, Vars: copyVars(vars), Observed: out.Class() + " " + postingsStr(out.Postings), Expected: fmt.Sprintf("shares %s, %s", want[0], want[1])}
+				if out.Err != nil || out.Panic != "" {
+					w.Eval(key, true, "spelling:"+out.Class())
+					w.Violation("C06.spelling-rejected:"+out.Class(), "a valid portion spelling was not accepted: "+out.Class(), len(text), c)
+					return
+				}
+				got := credits(out.Postings)
+				names := []string{"d0", "d1"}
+				if side == 1 {
+					got = debits(out.Postings)
+					names = []string{"s0", "s1"}
+				}
+				w.Eval(key, total.Sign() > 0, "spelling:ok")
+				for i, n := range names {
+					g := got[n]
+					if g == nil {
+						g = new(big.Int)
+					}
+					if g.Cmp(want[i]) != 0 {
+						w.Violation("C06.spelling-value", fmt.Sprintf("portion %q of %s: clause %d got %s, expected %s", txt, total, i, g, want[i]), len(text)+total.BitLen(), c)
+						break
+					}
+				}
+				if total.Sign() > 0 {
+					w.Sample("spelling", c)
+				}
+			})
+		})
+	})
 }
 
 func copyVars(v map[string]string) map[string]string {
